@@ -284,7 +284,7 @@ def t7(cx):
             fn = cx.method(im, meth)
             g = cx.graph(fn['key'])
             n += 1
-            bad = [x for x in g.nodes if x['kind'] in ('call', 'enter') and (x['name'] in IS_CLOSED_NAMES or x['name'].endswith('boxed_is_closed')) and x['args'] and
+            bad = [x for x in g.nodes if x['kind'] in ('call', 'enter') and (x['name'] in IS_CLOSED_NAMES) and x['args'] and
                    any(recv_class(x['args'][0]) == 'self.' + c or mentions(x['args'][0], lambda e, c=c: e[0] == 'field' and e[2] == c) for c in comp)]
             res.append(Finding(ID, 'T7', cx.label(fn), not bad,
                                'asks its own task handles for is_closed() while handling a notification: the handle of the task that is running right now is locked (Remote::poll), so an item produced from inside a downstream callback blocks for ever and nothing more is delivered'
